@@ -3,6 +3,7 @@ package rules
 import (
 	"fmt"
 	"go/token"
+	"go/types"
 	"sort"
 	"strings"
 
@@ -59,15 +60,21 @@ func RuleS2(c *Ctx) {
 			gos = append(gos, g)
 		}
 	})
-	if len(gos) != 1 {
-		und("shape", fmt.Sprintf("expected one go statement in Execute, found %d", len(gos)))
+	if len(gos) == 0 {
+		und("shape", "no go statement in Execute")
 		return
 	}
-	g := gos[0]
-	cl := loopOf(countedLoops(fn), g.Block())
+	cls0 := countedLoops(fn)
+	cl := loopOf(cls0, gos[0].Block())
 	if cl == nil {
 		und("shape", "the spawn is not inside a counted loop")
 		return
+	}
+	for _, g := range gos {
+		if loopOf(cls0, g.Block()) != cl {
+			und("shape", "the go statements of Execute are not all in one task loop")
+			return
+		}
 	}
 	if z, isZ := core.ConstInt(cl.init); !isZ || z != 0 || cl.step != 1 || cl.op != token.LSS {
 		und("shape", "the task loop is not `for i := 0; i < nbTasks; i++`")
@@ -78,57 +85,39 @@ func RuleS2(c *Ctx) {
 		und("shape", "the task loop's variable is not a header phi")
 		return
 	}
-	tgt, _ := closureOf(g.Call.Value)
-	if tgt == nil {
-		if f, isF := g.Call.Value.(*ssa.Function); isF {
-			tgt = f
-		}
+	// per spawn site: the spawned function and its call of work
+	type spawn struct {
+		tgt  *ssa.Function
+		work ssa.CallInstruction
 	}
-	if tgt == nil {
-		und("shape", "the spawned function is not a literal")
-		return
-	}
-	// the work call and where its two arguments come from
-	var work ssa.CallInstruction
-	for _, ci := range core.CallsIn(tgt) {
-		cc := ci.Common()
-		if !cc.IsInvoke() && core.Callee(cc) == nil && isFuncParamValue(cc.Value) && len(cc.Args) == 2 {
-			if work != nil {
-				und("shape", "more than one call of the work function in the spawned literal")
-				return
-			}
-			work = ci
-		}
-	}
-	if work == nil {
-		und("shape", "no call of the work function in the spawned literal")
-		return
-	}
-	// an argument is a value of the parent at the spawn, or the content of a captured cell at the spawn
-	type src struct {
-		val  ssa.Value
-		cell *ssa.Alloc
-	}
-	var srcs [2]src
-	for k, a := range work.Common().Args {
-		switch x := a.(type) {
-		case *ssa.Parameter:
-			for pi, q := range tgt.Params {
-				if q == x && pi < len(g.Call.Args) {
-					srcs[k].val = g.Call.Args[pi]
-				}
-			}
-		case *ssa.UnOp:
-			if fv, isFV := x.X.(*ssa.FreeVar); isFV && x.Op == token.MUL {
-				if cell, isCell := core.FreeVarBinding(fv).(*ssa.Alloc); isCell && cell.Parent() == fn {
-					srcs[k].cell = cell
-				}
+	spawns := map[*ssa.Go]spawn{}
+	for _, g := range gos {
+		tgt, _ := closureOf(g.Call.Value)
+		if tgt == nil {
+			if f, isF := g.Call.Value.(*ssa.Function); isF {
+				tgt = f
 			}
 		}
-		if srcs[k].val == nil && srcs[k].cell == nil {
-			und("shape", "cannot tell where the range handed to work comes from")
+		if tgt == nil {
+			und("shape", "the spawned function is not a literal")
 			return
 		}
+		var work ssa.CallInstruction
+		for _, ci := range core.CallsIn(tgt) {
+			cc := ci.Common()
+			if !cc.IsInvoke() && core.Callee(cc) == nil && isFuncParamValue(cc.Value) && len(cc.Args) == 2 {
+				if work != nil {
+					und("shape", "more than one call of the work function in the spawned literal")
+					return
+				}
+				work = ci
+			}
+		}
+		if work == nil {
+			und("shape", "no call of the work function in the spawned literal")
+			return
+		}
+		spawns[g] = spawn{tgt, work}
 	}
 
 	pc := &polyCtx{}
@@ -172,22 +161,49 @@ func RuleS2(c *Ctx) {
 					}
 				}
 			case *ssa.Go:
-				if x == g {
-					var got [2]poly
-					for k, s := range srcs {
-						switch {
-						case s.val != nil:
-							got[k] = pc.of(s.val, 0)
-						default:
-							q, has := mem[s.cell]
-							if !has {
-								p.ok, p.why = false, "a range cell is not assigned in the iteration that spawns the worker"
+				sp, isSpawn := spawns[x]
+				if !isSpawn {
+					continue
+				}
+				if p.start != nil {
+					p.ok, p.why = false, "two workers are spawned on one path through the loop body"
+					continue
+				}
+				// the arguments of work, seen from the parent at the moment of the spawn: parameters of the literal are
+				// the go statement's arguments, captured variables hold what their cells hold now
+				parentEnv := pc.env
+				var cenv func(v ssa.Value) (poly, bool)
+				cenv = func(v ssa.Value) (poly, bool) {
+					if q, ok := parentEnv(v); ok {
+						return q, true
+					}
+					switch y := v.(type) {
+					case *ssa.Parameter:
+						if y.Parent() == sp.tgt {
+							for pi, q := range sp.tgt.Params {
+								if q == y && pi < len(x.Call.Args) {
+									pc.env = parentEnv
+									r := pc.of(x.Call.Args[pi], 0)
+									pc.env = cenv
+									return r, true
+								}
 							}
-							got[k] = q
+						}
+					case *ssa.UnOp:
+						if fv, isFV := y.X.(*ssa.FreeVar); isFV && y.Op == token.MUL {
+							if cell, isCell := core.FreeVarBinding(fv).(*ssa.Alloc); isCell && cell.Parent() == fn {
+								if q, has := mem[cell]; has {
+									return q, true
+								}
+							}
 						}
 					}
-					p.start, p.end = got[0], got[1]
+					return nil, false
 				}
+				pc.env = cenv
+				args := sp.work.Common().Args
+				p.start, p.end = pc.of(args[0], 0), pc.of(args[1], 0)
+				pc.env = parentEnv
 			}
 		}
 		last := b.Instrs[len(b.Instrs)-1]
@@ -529,4 +545,194 @@ func s2Remainder(pc *polyCtx, fn *ssa.Function, E, T poly) bool {
 		}
 	})
 	return found
+}
+
+// ---------------------------------------------------------------------------
+// R2 — slices cut into equal chunks cover their base
+//
+// Wherever the module slices something as base[v*P : (v+1)*P] for a counter v that runs over 0 .. B-1 (a counted
+// loop, or the range a parallel.Execute callback is given when Execute is asked for B iterations), the chunks cover
+// base[0 : B*P]. Unless B*P is len(base) as a polynomial identity, or the open-ended tail base[B*P:] is processed as
+// well, the last len(base) - B*P elements are never touched (the classic floor-division split).
+
+func RuleR2(c *Ctx) {
+	c.Rule("R2", "equal-chunk slicing covers its base: for every base[v*P : (v+1)*P] with v counting 0 .. B-1 (a loop, or the range of a parallel.Execute callback asked for B iterations), B*P = len(base) as a polynomial identity or the tail base[B*P:] is processed too; otherwise the remainder of a floor division is silently left out")
+	n := 0
+	for _, top := range c.P.TopFuncs() {
+		if inHelperPkg(top) {
+			continue
+		}
+		fam := core.Family(top)
+		type chunk struct {
+			sl   *ssa.Slice
+			base ssa.Value
+			v    ssa.Value
+			P, B poly
+			fn   *ssa.Function
+		}
+		pc := &polyCtx{}
+		// values of closures stand for what they capture / are given at their single call site
+		pc.tr = func(v ssa.Value) ssa.Value {
+			for d := 0; d < 4; d++ {
+				switch x := v.(type) {
+				case *ssa.UnOp:
+					if x.Op != token.MUL {
+						return v
+					}
+					var cell *ssa.Alloc
+					switch a := x.X.(type) {
+					case *ssa.Alloc:
+						cell = a
+					case *ssa.FreeVar:
+						cell, _ = core.FreeVarBinding(a).(*ssa.Alloc)
+					}
+					if cell == nil {
+						return v
+					}
+					if p := core.ParamSpill(cell); p != nil {
+						return p
+					}
+					sts := storesInto(cell)
+					if len(sts) != 1 {
+						return v
+					}
+					v = core.StripConv(sts[0].Val)
+				case *ssa.FreeVar:
+					if b := core.FreeVarBinding(x); b != nil {
+						if _, isAl := b.(*ssa.Alloc); !isAl {
+							v = core.StripConv(b)
+							continue
+						}
+					}
+					return v
+				case *ssa.Parameter:
+					// a parameter of a literal run at one site: the argument it is given there
+					if b := core.LiteralParamBinding(x); b != nil {
+						v = core.StripConv(b)
+						continue
+					}
+					return v
+				default:
+					return v
+				}
+			}
+			return v
+		}
+		var chunks []chunk
+		var tails []chunk
+		for _, fn := range fam {
+			cls := countedLoops(fn)
+			core.AllInstrs(fn, func(i ssa.Instruction) {
+				sl, ok := i.(*ssa.Slice)
+				if !ok || sl.Low == nil {
+					return
+				}
+				if _, isSlice := sl.X.Type().Underlying().(*types.Slice); !isSlice {
+					return
+				}
+				base := baseOf(pc.tr(core.StripConv(sl.X)))
+				lo := pc.of(sl.Low, 0)
+				if sl.High == nil {
+					tails = append(tails, chunk{sl: sl, base: base, P: lo, fn: fn})
+					return
+				}
+				hi := pc.of(sl.High, 0)
+				// the counter: a loop variable that lo is linear in — of fn, or of the function that spawns fn in a loop
+				type lp struct {
+					cl *countedLoop
+					at *ssa.BasicBlock
+				}
+				var cands []lp
+				for _, cl := range cls {
+					cands = append(cands, lp{cl, sl.Block()})
+				}
+				for _, s := range c.spawnSites() {
+					if s.target == fn && s.kind == "go" && s.parent != nil {
+						for _, cl := range countedLoops(s.parent) {
+							cands = append(cands, lp{cl, s.at.Block()})
+						}
+					}
+				}
+				for _, cand := range cands {
+					cl := cand.cl
+					if !cl.loop.Blocks[cand.at] || cl.step != 1 || cl.op != token.LSS {
+						continue
+					}
+					vP := pc.leafPoly(cl.phi)
+					vKey := pc.leaf(core.StripConv(cl.phi))
+					if !lo.mentions(vKey) {
+						continue
+					}
+					P := hi.add(lo, -1)
+					if P.mentions(vKey) || len(P) == 0 || !lo.eq(vP.mul(P)) {
+						continue
+					}
+					// range of the counter
+					var B poly
+					if z, isZ := core.ConstInt(cl.init); isZ && z == 0 {
+						B = pc.of(cl.bound, 0)
+					} else if ip, isP := core.StripConv(cl.init).(*ssa.Parameter); isP {
+						// for v := start; v < end; v++ in a callback of parallel.Execute(B, …)
+						if bp, isBP := core.StripConv(cl.bound).(*ssa.Parameter); isBP && ip.Parent() == fn && bp.Parent() == fn && len(fn.Params) == 2 && fn.Params[0] == ip && fn.Params[1] == bp {
+							for _, s := range c.spawnSites() {
+								if s.kind == "Execute" && s.target == fn {
+									if call, isCall := s.at.(*ssa.Call); isCall && len(call.Call.Args) > 0 {
+										B = pc.of(call.Call.Args[0], 0)
+									}
+								}
+							}
+						}
+					}
+					if B == nil {
+						continue
+					}
+					chunks = append(chunks, chunk{sl, base, cl.phi, P, B, fn})
+				}
+			})
+		}
+		seen := map[string]bool{}
+		for _, ch := range chunks {
+			key := fmt.Sprintf("%s:%s[v*P:(v+1)*P]", core.FnName(ch.fn), shortPath(ch.base))
+			if seen[key] {
+				continue
+			}
+			seen[key] = true
+			n++
+			c.Saw(core.FnName(ch.fn))
+			total := ch.B.mul(ch.P)
+			lenLeaf := poly(nil)
+			for _, l := range pc.leaves {
+				if x, isLen := core.IsLenOf(l); isLen && (baseOf(pc.tr(core.StripConv(x))) == ch.base || core.SameExpr(baseOf(pc.tr(core.StripConv(x))), ch.base)) {
+					lenLeaf = pc.leafPoly(l)
+				}
+			}
+			okCover := lenLeaf != nil && total.eq(lenLeaf)
+			how := "B*P = len(base)"
+			if !okCover {
+				for _, t := range tails {
+					if (t.base == ch.base || core.SameExpr(t.base, ch.base)) && t.P.eq(total) {
+						okCover = true
+						how = "tail base[B*P:] at " + c.P.Pos(t.sl.Pos())
+					}
+				}
+			}
+			c.Check(okCover, "R2", key, ch.sl.Pos(), fmt.Sprintf("%s cuts %s into %s chunks of %s elements, which cover %s elements, and neither is that len(%s) identically nor is the tail from there on processed: when the division leaves a remainder the last elements are never touched", core.FnName(ch.fn), shortPath(ch.base), pc.show(ch.B), pc.show(ch.P), pc.show(total), shortPath(ch.base)), how)
+		}
+	}
+	c.FloorN("R2", 1, n, "equal-chunk slicings")
+}
+
+// baseOf: the identity of a sliced variable — the cell it lives in when it is a reassigned or captured local.
+func baseOf(v ssa.Value) ssa.Value {
+	if u, ok := v.(*ssa.UnOp); ok && u.Op == token.MUL {
+		switch a := u.X.(type) {
+		case *ssa.Alloc:
+			return a
+		case *ssa.FreeVar:
+			if b, isAl := core.FreeVarBinding(a).(*ssa.Alloc); isAl {
+				return b
+			}
+		}
+	}
+	return v
 }
